@@ -46,7 +46,9 @@ def correspond(res, tier, seed):
                 res.violation(key, 'frame type %s on device %s: model publishes %s, service delivered %s' % (typ, parts[1], e[:80], o[:80]), 'input', True,
                               case=[r[:3000]], expected=[e[:2000]], observed=[o[:2000]])
             else:
-                res.violation('forward:extra-readings', '%s readings reached EdgeX that no received frame accounts for (wrong device, duplicate or altered content)' % o, 'input', True,
+                what = ('%s device update(s) (UpdateAddr with the unchanged address) did not return within 3 s while reports were flowing: the device is wedged' % o) if 'stuck' in r else \
+                    ('%s readings reached EdgeX that no received frame accounts for (wrong device, duplicate or altered content)' % o)
+                res.violation('forward:' + ('stuck-updates' if 'stuck' in r else 'extra-readings'), what, 'input', True,
                               case=[r], expected=[e], observed=[o])
     step = max(1, len(reqs) // 5)
     res.samples = [dict(request=reqs[i][:300], oracle=exp[i][:200], observed=obs[i][:200]) for i in range(0, len(reqs), step)][:6]
